@@ -1,10 +1,12 @@
 (* Single entry point of the executable models: function id + argument tree -> result tree. *)
-From PV Require Export Model.ComponentsX Model.EnginesX.
+From PV Require Export Model.ComponentsX Model.EnginesX Model.SourceX.
 
 Definition dispatch (f : Z) (x : sx) : sx :=
   match f with
   | 1 => x_bs x | 2 => x_ps x | 3 => x_wp x | 4 => x_pr x | 5 => x_perm x | 6 => x_check_value x | 7 => x_unit_prod x
   | 10 => x_run_prog x
   | 20 => x_amps x | 21 => x_amp1 x | 22 => x_dist x | 23 => x_masked x | 24 => x_submatrix x
+  | 600 => x_get_probs x | 601 => x_one_photon x | 602 => x_prob_dist x | 603 => x_generate x | 604 => x_prob_table x
+  | 605 => x_from_noise x | 606 => x_generate_filtered x | 607 => x_event_law x
   | _ => L []
   end%Z.
